@@ -144,11 +144,26 @@ class Snap(object):
         self.stats = [x.term for x in stats.items] if all(isinstance(x, IntV) for x in stats.items) and len(stats.items) == 3 else None
         self.q = st.get(case.queue_ref) if case.queue_ref is not None else None
         self.C = st.get(case.counter_ref) if case.counter_ref is not None else None
+        # state the closure hides in lists it created (seeds C06-7, C16-9): the element terms, for "unchanged" clauses
+        self.hidden = []
+        for r in getattr(case, 'hidden_refs', ()):
+            o = st.get(r)
+            if o.kind == 'list':
+                self.hidden.append([I_term(x) for x in o.items])
         if self.C is not None and self.C.vsort != 'Int':
             if self.C.role == 'fresh' and self.C.dom.eq(EMPTY_SET):
                 self.C = DictObj.empty('Int', self.C.cls, 'counter')     # still empty: Counter()
             else:
                 raise Unsupported('counter object holds non-integer values')
+
+
+def I_term(v):
+    """a z3 term for a value held in hidden state (None when it has none)"""
+    if isinstance(v, (IntV, BoolV, Opaque)):
+        return v.term
+    if isinstance(v, NoneV):
+        return NoneC
+    return None
 
 
 def x_():
@@ -358,7 +373,9 @@ class Case(object):
         for r in getattr(self, 'hidden_refs', ()):
             o = st.get(r)
             if o.kind == 'list':
-                st.put(r, ListObj([Opaque(fresh('hidden', Val)) for _ in o.items], o.role))
+                # arbitrary contents of the type the prologue put there (a counter stays an integer, a flag a boolean)
+                st.put(r, ListObj([IntV(fresh('hidden', INT)) if isinstance(x, IntV) and not isinstance(x, BoolV) else
+                                   (BoolV(fresh('hidden', BOOL)) if isinstance(x, BoolV) else Opaque(fresh('hidden', Val))) for x in o.items], o.role))
             elif o.kind in ('dict', 'concdict'):
                 d = DictObj.symbolic('hidden', 'Val', getattr(o, 'cls', None))
                 st.put(r, d)
@@ -465,6 +482,15 @@ class Case(object):
             out.append(('queue', deque_eq(pre.q, post.q)))
         if pre.C is not None:
             out.append(('counter', map_eq(pre.C, post.C)))
+        if getattr(pre, 'hidden', None):
+            same = []
+            for a, b in zip(pre.hidden, getattr(post, 'hidden', [])):
+                if len(a) != len(b):
+                    same.append(z3.BoolVal(False))
+                    continue
+                for x, y in zip(a, b):
+                    same.append(z3.BoolVal(x is y) if (x is None or y is None) else (x == y if x.sort() == y.sort() else z3.BoolVal(False)))
+            out.append(('hidden', z3.And(*same) if same else z3.BoolVal(True)))
         return out
 
     def binding_ok(self, pre, post):
